@@ -607,8 +607,12 @@ class UniformTime(np.ndarray, TimeInterface):
         if isinstance(data, UniformTime):
             # Get attributes from the UniformTime object and transfer those
             # over:
+            # Wherever the sampling is taken over from the existing axis, its
+            # sampling interval (exact, in the base unit) comes along with the
+            # rate, so that nothing is re-derived from the floating point rate:
             if tspec == tspecs_w_data['nothing']:
                 sampling_rate = data.sampling_rate
+                sampling_interval = data.sampling_interval
                 duration = data.duration
             elif tspec == tspecs_w_data['sampling_interval']:
                 duration = data.duration
@@ -619,8 +623,10 @@ class UniformTime(np.ndarray, TimeInterface):
             elif tspec == tspecs_w_data['length']:
                 duration = length * data.sampling_interval
                 sampling_rate = data.sampling_rate
+                sampling_interval = data.sampling_interval
             elif tspec == tspecs_w_data['duration']:
                 sampling_rate = data.sampling_rate
+                sampling_interval = data.sampling_interval
             if time_unit is None:
                 # If the user didn't ask to change the time-unit, use the
                 # time-unit from the object you got:
@@ -667,7 +673,8 @@ class UniformTime(np.ndarray, TimeInterface):
                 c_f = time_unit_conversion[time_unit]
                 sampling_rate = Frequency(sampling_rate, time_unit='s')
                 sampling_interval = sampling_rate.to_period() / float(c_f)
-        else:
+        elif sampling_rate is None:  # Only if you didn't already 'inherit'
+                                     # the rate from another time object
             if isinstance(sampling_interval, TimeInterface):
                 c_f = time_unit_conversion[sampling_interval.time_unit]
                 sampling_rate = Frequency(1.0 / (float(sampling_interval) /
